@@ -1,10 +1,19 @@
 HOOK_COMMITS = ["7de202d"]
-FIX_COMMITS = ["7a73b90", "307c7cf", "73e9739", "b6ad768", "06a0422", "37593fd", "b26bda1", "ef4414e", "83534a3", "9d32858", "8df6799", "bfa46be"]
+FIX_COMMITS = ["7a73b90", "307c7cf", "73e9739", "b6ad768", "06a0422", "37593fd", "b26bda1", "ef4414e", "83534a3", "9d32858", "8df6799", "bfa46be", "d5169bc"]
 
 NOTE_COMMON = ("Trusted: Lean kernel (axioms propext/Classical.choice/Quot.sound only), the hand-written model's "
                "fidelity outside the sampled correspondence, rustc/std and third-party crates as black boxes, the guarded hooks.")
 
 CLAIMS = {
+    "C04": {
+        "level": "Kernel-checked: for every assignment of units to workers (any worker count, any stealing), every completion order, every register-bank "
+                 "type and every editor core, the parallel run returns exactly the --serial result, because execute() resets the thread's registers first; each "
+                 "unit's records are those of the unit run alone; the pre-fix behaviour is kept with a kernel-checked two-schedule counterexample. Every run probes "
+                 "read-before-write command lists through the real execute() on one thread (registers incl. line/block kinds, search pattern, dot/char-search/gv state) and "
+                 "compares the real binary under RAYON_NUM_THREADS 1..32 x seeded jitter with --serial (stdin, files, --linewise, -i).",
+        "note": NOTE_COMMON + " PARTIAL with respect to the runtime: that rayon runs each closure once and returns a permutation of the units is assumed by the theorem and only explored (thread counts x jitter), not proved.",
+        "technique": "Lean 4 proof over a schedule model (workers with thread-local state, arbitrary assignment + completion permutation) + same-thread unit probes and schedule exploration of the real binary",
+    },
     "C05": {
         "level": "Kernel-checked theorems over an abstract file system, for any per-file processing function (every command list, mode and renderer): "
                  "after a successful -i run each named file holds exactly the output computed for it, identity processing leaves files byte-identical, "
